@@ -15,3 +15,22 @@ int fx6_truncates_s(char *dest, size_t dmax, const char *src) {      /* terminat
     dest[-1] = '\0';
     return 0;
 }
+/* returned pointer: must be the address of the terminating null */
+char *fx6_stp_good_s(char *dest, size_t dmax, const char *src, int *errp) {
+    if (!dest || !src || !errp || dmax == 0 || dmax > 4096) { if (errp) *errp = 400; return 0; }
+    while (dmax > 0) {
+        *dest = *src;
+        if (*dest == '\0') { char *slack = dest; while (dmax) { *slack = '\0'; dmax--; slack++; } *errp = 0; return dest; }
+        dmax--; dest++; src++;
+    }
+    *errp = 406; return 0;
+}
+char *fx6_stp_advanced_s(char *dest, size_t dmax, const char *src, int *errp) {     /* the clearing loop advances dest itself */
+    if (!dest || !src || !errp || dmax == 0 || dmax > 4096) { if (errp) *errp = 400; return 0; }
+    while (dmax > 0) {
+        *dest = *src;
+        if (*dest == '\0') { while (dmax) { *dest = '\0'; dmax--; dest++; } *errp = 0; return dest; }
+        dmax--; dest++; src++;
+    }
+    *errp = 406; return 0;
+}
